@@ -32,12 +32,27 @@ func c17Meta(who sdk.AccAddress) valsettypes.MsgMetadata {
 	return valsettypes.MsgMetadata{Creator: who.String(), Signers: []string{who.String()}}
 }
 
-func c17Payload(p []byte) []byte {
-	bz, err := json.Marshal(&evmtypes.JobPayload{HexPayload: hex.EncodeToString(p)})
+// c17Payload renders the call data p in one of the spellings the job
+// verifier accepts: plain hex, 0x / 0X prefixed, or with an odd number of
+// digits (one leading nibble 0xf, i.e. the byte 0x0f in front of p). It
+// returns the JSON and the bytes the spelling denotes.
+func c17Payload(p []byte, spelling int) ([]byte, []byte) {
+	h := hex.EncodeToString(p)
+	want := p
+	switch spelling {
+	case 1:
+		h = "0x" + h
+	case 2:
+		h = "0X" + h
+	case 3:
+		h = "f" + h
+		want = append([]byte{0x0f}, p...)
+	}
+	bz, err := json.Marshal(&evmtypes.JobPayload{HexPayload: h})
 	if err != nil {
 		panic(err)
 	}
-	return bz
+	return bz, want
 }
 
 func c17Calls(env *Env) []*evmtypes.SubmitLogicCall {
@@ -88,10 +103,10 @@ func VerifC17_Jobs() {
 	}
 	srv := schedulerkeeper.NewMsgServerImpl(*env.Scheduler)
 
-	stored := sym.Bytes("stored-payload", 2)
+	storedJSON, stored := c17Payload(sym.Bytes("stored-payload", 2), sym.Choice("stored-spelling", 4))
 	modifiable := sym.Bool("payload-modifiable")
 	def, _ := json.Marshal(&evmtypes.JobDefinition{Address: c17Target, ABI: "00"})
-	job := &schedulertypes.Job{ID: "job1", Routing: schedulertypes.Routing{ChainType: "evm", ChainReferenceID: ChainA}, Definition: def, Payload: c17Payload(stored), IsPayloadModifiable: modifiable}
+	job := &schedulertypes.Job{ID: "job1", Routing: schedulertypes.Routing{ChainType: "evm", ChainReferenceID: ChainA}, Definition: def, Payload: storedJSON, IsPayloadModifiable: modifiable}
 	_, err := srv.CreateJob(env.Ctx, &schedulertypes.MsgCreateJob{Job: job, Metadata: c17Meta(c17Owner)})
 	sym.Assert(err == nil, "job-created")
 	sym.Reach("job-created")
@@ -102,7 +117,8 @@ func VerifC17_Jobs() {
 	sym.Assert(orig.Owner.Equals(c17Owner), "owner-is-the-creator")
 
 	// a second creation under the same id (by anybody, with anything) is refused
-	other := &schedulertypes.Job{ID: "job1", Routing: schedulertypes.Routing{ChainType: "evm", ChainReferenceID: ChainA}, Definition: def, Payload: c17Payload(sym.Bytes("other-payload", 2)), IsPayloadModifiable: !modifiable}
+	otherJSON, _ := c17Payload(sym.Bytes("other-payload", 2), 0)
+	other := &schedulertypes.Job{ID: "job1", Routing: schedulertypes.Routing{ChainType: "evm", ChainReferenceID: ChainA}, Definition: def, Payload: otherJSON, IsPayloadModifiable: !modifiable}
 	creator2 := []sdk.AccAddress{c17Owner, c17Other}[sym.Choice("second-creator", 2)]
 	cctx, commit := env.Ctx.CacheContext()
 	_, err = srv.CreateJob(cctx, &schedulertypes.MsgCreateJob{Job: other, Metadata: c17Meta(creator2)})
@@ -118,9 +134,9 @@ func VerifC17_Jobs() {
 	}
 	for r := 0; r < n; r++ {
 		caller := []sdk.AccAddress{c17Owner, c17Other}[sym.Choice("caller", 2)]
-		var in []byte
+		var in, inBody []byte
 		if sym.Bool("caller-supplies-payload") {
-			in = c17Payload(sym.Bytes("caller-payload", 2))
+			in, inBody = c17Payload(sym.Bytes("caller-payload", 2), sym.Choice("caller-spelling", 4))
 		}
 		viaContract := sym.Bool("requested-by-contract")
 		before := c17Calls(env)
@@ -154,15 +170,7 @@ func VerifC17_Jobs() {
 		sym.Assert(call.HexContractAddress == c17Target, "call-targets-the-jobs-contract")
 		wantBody := stored
 		if modifiable && in != nil {
-			var jp evmtypes.JobPayload
-			if err := json.Unmarshal(in, &jp); err != nil {
-				panic(err)
-			}
-			b, err := hex.DecodeString(jp.HexPayload)
-			if err != nil {
-				panic(err)
-			}
-			wantBody = b
+			wantBody = inBody
 			sym.Reach("caller-payload-used")
 		}
 		sym.Assert(in == nil || modifiable, "caller-payload-only-for-modifiable-jobs")
